@@ -476,12 +476,12 @@ def obligations(tier):
                 CK.latest_checkpoint, CK.available_steps, CK._all_checkpoints,
                 CK.restore_checkpoint, CK.natural_sort, CK._checkpoint_path_step,
                 CK.AsyncManager.save_async, CK.AsyncManager.wait_previous_save)
-  st = I(0, 3 if quick else 5)
+  st = I(0, 3 if quick else 2)      # thorough: 3 saves over steps 0..2
   nmax = 2 if quick else 3
   return [
       Ob('crash_and_retention', history,
-         dict(n=I(1, nmax), s0=st, s1=st, s2=st, keep=I(1, 2 if quick else 3),
-              every=I(0, 2 if quick else 3), o0=B(), o1=B(), o2=B(),
+         dict(n=I(1, nmax), s0=st, s1=st, s2=st, keep=I(1, 2),
+              every=I(0, 2), o0=B(), o1=B(), o2=B(),
               crash_at=I(-1, 12), retry_later=I(0, 1)),
          split=('n', 's0', 's1', 'every') if quick else ('n', 's0', 's1', 's2',
                                                            'every'),
@@ -489,8 +489,7 @@ def obligations(tier):
          bounds='<=%d saves, steps 0..%d, keep 1..%d, keep_every_n_steps in '
                 '{None,1,2%s}, overwrite per save, crash at FS op -1(no crash)..12 '
                 'of the last save incl. torn write, then retry same step or save a '
-                'later step' % (nmax, st.hi, 2 if quick else 3,
-                                '' if quick else ',3')),
+                'later step' % (nmax, st.hi, 2, '')),
       Ob('step_ordering', step_ordering,
          dict(i=I(0, len(STEP_POOL) - 1), j=I(0, len(STEP_POOL) - 1),
               k=I(0, len(STEP_POOL) - 1)), split=('i',), timeout=600, funcs=F,
